@@ -675,6 +675,15 @@ class Store:
         dst, src = op.dst, op.src
         vd = ViewInfo(dst)
         dshape = dst.shape
+        if isinstance(src, Arr) and src.perm is not None:
+            # assignment from a transposed temporary (fast-diagonalisation solver): opaque version
+            base = Arr(src.alloc, src.axes, src.part)
+            ins = [self.snapshot(base)]
+            for comp in vd.comp_tuples():
+                key = self.key(vd.alloc, comp, vd.part)
+                name, atom = self.new_ext("numpy:transpose-assign", key, ins, op, {"perm": src.perm})
+                self.write(key, vd.box(), atom)
+            return
         if isinstance(src, Arr):
             sshape = src.shape
             # numpy broadcasting of src into dst
